@@ -749,7 +749,7 @@ impl Check for C17Far {
         // ---- the input and where every value's text lies
         let mut bytes: Vec<u8> = Vec::new();
         let mut spans: Vec<(usize, usize)> = Vec::new();
-        let len = if c.prefix == 1 { c.len.min(70_000) } else if c.prefix == 3 { c.len.min(140_000) } else { c.len };
+        let len = if c.prefix == 1 { c.len.min(140_000) } else if c.prefix == 3 { c.len.min(140_000) } else { c.len };
         match c.prefix {
             0 => bytes.extend(std::iter::repeat(b' ').take(len)),
             1 => {
